@@ -8,7 +8,8 @@ implies(a,b), ite(c,a,b), exc (the raised exception in a raises-clause), ghost.<
 """
 from __future__ import annotations
 
-REG = {"contracts": {}, "classes": {}, "invariants": {}, "lemmas": {}, "specs": {}, "ghosts": {}, "stmts": {}}
+REG = {"contracts": {}, "classes": {}, "invariants": {}, "lemmas": {}, "specs": {}, "ghosts": {}, "stmts": {},
+       "disk_schema": {}, "ghost_functions": {}}
 
 
 class Contract:
@@ -46,6 +47,9 @@ class Contract:
         # preconditions over ghost state that are CHECKED at call sites (unlike ghost-mentioning `requires`, which
         # reset the ghost trace)
         self.ghost_requires = list(kw.pop("ghost_requires", ()))
+        # claims: {label: clause} - obligations on the body exactly like `ensures`, but NEVER assumed at call sites
+        # (for clauses of the property that are known not to hold: callers must not build on them)
+        self.claims = dict(kw.pop("claims", {}))
         if kw:
             raise TypeError(f"unknown contract keys {list(kw)} for {key}")
 
@@ -132,3 +136,19 @@ def stmt_contract(key, match, ensures, label, **kw):
     sc = StmtContract(key, match, ensures, label, **kw)
     REG["stmts"].setdefault(key, []).append(sc)
     return sc
+
+
+def disk_schema(file, keys):
+    """Schema of the PREVIOUS content of a checkpoint file (what a checkpoint written by this code holds):
+    key -> type string; "prefix{}" declares a key family f"prefix{d}"; "" the type of a pickled object."""
+    REG["disk_schema"].setdefault(file, {}).update(keys)
+
+
+def ghost_function(module, source):
+    """A specification-only composition of real functions (Python source of ONE def), verified like a function of
+    `module` against the CONTRACTS of what it calls: used to state theorems such as load(save(x)) == x.  It never
+    runs and is not part of the repository."""
+    import ast as _ast
+    fn = _ast.parse(source).body[0]
+    REG["ghost_functions"][f"{module}::{fn.name}"] = fn
+    return f"{module}::{fn.name}"
